@@ -21,6 +21,66 @@ def slotStat (s : Snap) (x : Spec.SSlot) : List String :=
             | some _ => if f.installed.isEmpty then ["judged-installed-empty"] else ["judged-installed"]
             | none => ["skip-not-at-end-of-data"]))
 
+/-- evidence only: input classes (boundary buckets) of a PDU -/
+def pfxClass (f : String) (w plen ml flags asn : Nat) : List String :=
+  [if plen = 0 then s!"in-{f}-plen-0" else if plen = w then s!"in-{f}-plen-max" else if plen + 1 = w then s!"in-{f}-plen-max-1"
+   else if plen > w then s!"in-{f}-plen-over-max" else if plen % 8 = 0 then s!"in-{f}-plen-byte-boundary" else s!"in-{f}-plen-other",
+   if ml < plen then "in-maxlen-below-plen" else if ml = plen then "in-maxlen-eq-plen" else if ml = 255 then "in-maxlen-255" else "in-maxlen-above-plen",
+   if asn = 0 then "in-as-0" else if asn = 4294967295 then "in-as-max" else "in-as-other",
+   if flags = 0 then "in-withdraw" else if flags = 1 then "in-announce" else "in-flags-other-bits"]
+
+def junkClass (b : List Nat) : String :=
+  match b[0]?, b[1]?, rd32 b 4 with
+  | some v, some ty, some len =>
+      if len < 8 then "in-junk-length-below-8"
+      else if len > 65535 then "in-junk-length-above-65535"
+      else if badLen v ty len then
+        (match expectedLen v ty with
+         | some e => if len + 1 = e then "in-junk-fixed-length-one-short" else if len = e + 1 then "in-junk-fixed-length-one-long" else "in-junk-fixed-length-wrong"
+         | none => "in-junk-other")
+      else if len > b.length then "in-junk-truncated" else "in-junk-other"
+  | _, _, _ => "in-junk-shorter-than-header"
+
+def pduClass : Pdu → List String
+  | .cr v s => [s!"in-version-{if v > 2 then 3 else v}", if s = 0 then "in-session-id-0" else if s = 65535 then "in-session-id-max" else "in-session-id-other"]
+  | .p4 _ f l m _ n => pfxClass "v4" 32 l m f n
+  | .p6 _ f l m _ n => pfxClass "v6" 128 l m f n
+  | .eod v _ n => [if v ≥ 1 then "in-eod-24-bytes" else "in-eod-12-bytes", if n = 0 then "in-serial-0" else if n = 4294967295 then "in-serial-max" else "in-serial-other"]
+  | .notify .. => ["in-serial-notify"]
+  | .creset _ => ["in-cache-reset"]
+  | .err _ c b => [s!"in-error-report-code-{if c > 8 then 9 else c}", if b.isEmpty then "in-error-report-header-only" else "in-error-report-with-body"]
+  | .raw _ t _ b =>
+      [if t = 9 then "in-router-key" else if [0, 1, 2, 3, 4, 6, 7, 8, 10].contains t then "in-known-type-as-raw" else "in-unknown-type",
+       if b.isEmpty then "in-pdu-length-8" else if 8 + b.length = 65535 then "in-pdu-length-65535" else if 8 + b.length > 108 then "in-pdu-longer-than-108" else "in-pdu-short"]
+  | .junk b => [junkClass b]
+
+/-- round-structure classes of a stream (over all its PDUs) -/
+def roundClass (pdus : List Pdu) : List String :=
+  let f := pdus.foldl (fun (st : Bool × Bool × Nat × List String) p =>
+    -- (in a reset response, something announced in this response, End-of-Data seen, classes)
+    let (inReset, got, eods, acc) := st
+    match p with
+    | .p4 .. | .p6 .. => (inReset, true, eods, acc)
+    | .eod .. => (false, false, eods + 1,
+        acc ++ (if inReset ∧ !got then [if eods = 0 then "in-empty-first-response" else "in-empty-reset-response-after-data"] else [])
+            ++ (if !inReset ∧ !got then ["in-empty-serial-response"] else []))
+    | .creset _ => (true, false, eods, acc ++ (if got then ["in-cache-reset-in-mid-response"] else []) ++ (if eods = 0 then ["in-cache-reset-before-any-data"] else []))
+    | .notify .. => (inReset, got, eods, acc ++ [if eods = 0 then "in-notify-before-first-end-of-data" else "in-notify-after-end-of-data"])
+    | _ => st) (true, false, 0, [])
+  f.2.2.2 ++ (if f.2.2.1 ≥ 5 then ["in-five-or-more-end-of-data"] else [])
+
+def stepClass (c : Case) : List String :=
+  let caches := c.streams.map (·.cache)
+  (if c.steps.any (fun s => match s with | .wfail _ => true | _ => false) then ["in-write-failure"] else []) ++
+  (if c.steps.any (fun s => match s with | .soft _ => true | _ => false) then ["in-soft-reset"] else []) ++
+  (if c.steps.any (fun s => match s with | .close _ true => true | _ => false) then ["in-end-eof"] else []) ++
+  (if c.steps.any (fun s => match s with | .close _ false => true | _ => false) then ["in-end-cancel"] else []) ++
+  (if c.steps.any (fun s => match s with | .send _ n => n ≤ 7 | _ => false) then ["in-fragment-below-header-size"] else []) ++
+  (if caches.length ≥ 2 ∧ caches.any (fun a => (caches.filter (· = a)).length ≥ 2) then ["in-two-sessions-one-address"] else [])
+
+def dedup (l : List String) : List String :=
+  l.foldl (fun acc k => if acc.contains k then acc else acc ++ [k]) []
+
 def statsFrom : List Spec.SSlot → List Step → List Snap → List String
   | _, [], _ => []
   | σ, .snap :: rest, s :: obs => (σ.flatMap (slotStat s)) ++ statsFrom σ rest obs
@@ -44,6 +104,7 @@ def handler (mode : String) (line : String) : String :=
       | some (.script c) => toStr (outT (run c))
       | some (.tcp n) => toStr (tcpT n)
       | some (.tcpReset n) => toStr (tcpResetT n)
+      | some (.tcpReconnect n) => toStr (tcpReconnectT n)
       | none => "(bad-case)"
   | "oracle" =>
       match parseMany line with
@@ -59,6 +120,10 @@ def handler (mode : String) (line : String) : String :=
           | some (.tcpReset n) =>
               -- after a hard reset exactly the new session's VRPs, and none after its end
               if toStr o == toStr (tcpResetT n) then "ok" else "fail step=0 clause=vrps-wrong-after-hard-reset"
+          | some (.tcpReconnect n) =>
+              -- connection closed by the cache: VRPs gone, reconnect after the back-off with a Reset Query,
+              -- new data installed, nothing left once the cache and then the client are gone
+              if toStr o == toStr (tcpReconnectT n) then "ok" else "fail step=0 clause=reconnect-cycle-misbehaved"
           | none =>
               if toStr o == "(bad-case)" then "ok" else "fail step=0 clause=ill-formed-case-accepted"
       | _ => "(bad-line)"
@@ -68,9 +133,11 @@ def handler (mode : String) (line : String) : String :=
           match caseOf? c, outOf? o with
           | some (.script c), some (.ok obs) =>
               let l := statsFrom (Spec.initSlots c) c.steps obs
-              countTokens (l ++ (if l.contains "judged-installed" then ["cases-judged-installed"] else ["cases-never-judged-installed"]))
+              countTokens (l ++ (if l.contains "judged-installed" then ["cases-judged-installed"] else ["cases-never-judged-installed"])
+                ++ dedup (c.streams.flatMap (fun d => d.pdus.flatMap pduClass ++ roundClass d.pdus) ++ stepClass c))
           | some (.tcp _), _ => "tcp-cases=1"
           | some (.tcpReset _), _ => "tcp-cases=1"
+          | some (.tcpReconnect _), _ => "tcp-cases=1 in-tcp-reconnect-cycle=1"
           | _, _ => "other=1"
       | _ => "other=1"
   | _ => "(bad-mode)"
